@@ -124,26 +124,32 @@ Definition updp_paths (g : mgraph) (u c : nat) (o : uopts) : list (list nat) :=
 Definition spec_updp_dec (g : mgraph) (u c : nat) (o : uopts) : bool :=
   match updp_paths g u c o with [] => false | _ => true end.
 
-(* ---------- discriminating paths  p = v :: qs ++ [u; c], last qs = a ---------- *)
-Definition disc_valid_b (g : mgraph) (u a c : nat) (p : list nat) : bool :=
+(* ---------- discriminating paths  p = v :: qs ++ [u; c], last qs = a ----------
+   [par q] = "q counts as a parent of c".  The property's reading is [par_of g false a c] = [is_parent g . c]
+   (PAG.parents: q -> c with a tail at q).  [par_of g true a c] is the implementation's reading, which tests the
+   node a by has_edge(a, c, directed) only (a o-> c passes); it is used to recognise that recorded deviation. *)
+Definition par_of (g : mgraph) (lenient : bool) (a c : nat) (q : nat) : bool :=
+  if lenient && Nat.eqb q a then has_d g q c else is_parent g q c.
+
+Definition disc_valid_b (g : mgraph) (par : nat -> bool) (u a c : nat) (p : list nat) : bool :=
   let m := removelast p in
   Nat.leb 4 (length p) &&
   Nat.eqb (last p 0) c && Nat.eqb (last m 0) u && Nat.eqb (last (removelast m) 0) a &&
   nodupb p && subsetb p (V g) && pairs_b (adjacent g) p &&
   negb (adjacent g (hd 0 p) c) && adjacent g u c &&
-  triples_b (fun x y z => collider g x y z && is_parent g y c) m.
+  triples_b (fun x y z => collider g x y z && par y) m.
 
-Definition disc_paths (g : mgraph) (u a c : nat) : list (list nat) :=
-  filter (disc_valid_b g u a c) (map (@rev nat) (simple_paths (adjacent g) (V g) c)).
+Definition disc_paths (g : mgraph) (par : nat -> bool) (u a c : nat) : list (list nat) :=
+  filter (disc_valid_b g par u a c) (map (@rev nat) (simple_paths (adjacent g) (V g) c)).
 
-Definition spec_disc_dec (g : mgraph) (u a c : nat) : bool :=
-  match disc_paths g u a c with [] => false | _ => true end.
+Definition spec_disc_dec (g : mgraph) (par : nat -> bool) (u a c : nat) : bool :=
+  match disc_paths g par u a c with [] => false | _ => true end.
 
 (* ---------- search model: discriminating_path, repaired ----------
    queue of partial paths [q; ...; a; u; c] (q the node to expand); [visited] = nodes on some queued / expanded path.
    A node q is expanded over the unvisited w with an arrowhead at q (w *-> q); such a w ends the search when it is
    not adjacent to c; it is enqueued (and only then marked) when it is a parent of c and q *-> w as well. *)
-Fixpoint disc_bfs (g : mgraph) (c : nat) (fuel : nat) (queue : list (list nat)) (visited : list nat)
+Fixpoint disc_bfs (g : mgraph) (par : nat -> bool) (c : nat) (fuel : nat) (queue : list (list nat)) (visited : list nat)
   : option (list nat) :=
   match fuel with
   | 0 => None
@@ -156,19 +162,19 @@ Fixpoint disc_bfs (g : mgraph) (c : nat) (fuel : nat) (queue : list (list nat)) 
           match find (fun w => negb (adjacent g w c) && negb (Nat.eqb w c)) ws with
           | Some w => Some (w :: path)
           | None =>
-              let nexts := filter (fun w => is_parent g w c && arrow_at g q w) ws in
-              disc_bfs g c f (rest ++ map (fun w => w :: path) nexts) (nexts ++ visited)
+              let nexts := filter (fun w => par w && arrow_at g q w) ws in
+              disc_bfs g par c f (rest ++ map (fun w => w :: path) nexts) (nexts ++ visited)
           end
       end
   end.
 
-Definition disc_pre (g : mgraph) (u a c : nat) : bool :=
+Definition disc_pre (g : mgraph) (par : nat -> bool) (u a c : nat) : bool :=
   memb u (V g) && memb a (V g) && memb c (V g) &&
   negb (Nat.eqb u a) && negb (Nat.eqb u c) && negb (Nat.eqb a c) &&
-  is_parent g a c && arrow_at g u a && adjacent g u c.
+  par a && arrow_at g u a && adjacent g u c.
 
-Definition disc_search (g : mgraph) (u a c : nat) : option (list nat) :=
-  if disc_pre g u a c then disc_bfs g c (2 * length (V g) + 2) [[a; u; c]] [a; u; c] else None.
+Definition disc_search (g : mgraph) (par : nat -> bool) (u a c : nat) : option (list nat) :=
+  if disc_pre g par u a c then disc_bfs g par c (2 * length (V g) + 2) [[a; u; c]] [a; u; c] else None.
 
 (* ---------- search model: uncovered_pd_path with ONE global explored set (order-faithful) ----------
    neighbours in ascending order (CPython iteration of a set of small ints); queue elements are the back-pointer
@@ -213,7 +219,8 @@ Definition updp_search (g : mgraph) (u c : nat) (o : uopts) : sres :=
    input  L [I 0; graph; L queries]
      query L [I 0; I u; I c; first; second; forbid; I fc]   (options: L [] or L [I x])
            L [I 1; I u; I a; I c]
-   output per query  L [I code; L valid_paths; I search_found; path]
+   output per query  L [I code; L valid_paths; I search_found; path]   (discriminating: the same four again for the
+     lenient reading of "a is a parent of c")
      code: 0 no path exists, 1 a path exists (definitional decider), 2 the call raises *)
 Definition sx_opt (s : sx) : option nat :=
   match sx_list s with x :: _ => Some (sx_nat x) | [] => None end.
@@ -235,11 +242,14 @@ Definition run_query (g : mgraph) (q : sx) : sx :=
       let u := sx_nat (sx_nth q 1) in
       let a := sx_nat (sx_nth q 2) in
       let c := sx_nat (sx_nth q 3) in
-      let ps := disc_paths g u a c in
-      match disc_search g u a c with
-      | Some p => L [of_bool (match ps with [] => false | _ => true end); of_natss ps; I 1; of_nats p]
-      | None => L [of_bool (match ps with [] => false | _ => true end); of_natss ps; I 0; L []]
-      end
+      let one (lenient : bool) :=
+        let par := par_of g lenient a c in
+        let ps := disc_paths g par u a c in
+        match disc_search g par u a c with
+        | Some p => [of_bool (match ps with [] => false | _ => true end); of_natss ps; I 1; of_nats p]
+        | None => [of_bool (match ps with [] => false | _ => true end); of_natss ps; I 0; L []]
+        end in
+      L (one false ++ one true)
   end.
 
 Definition run_case (s : sx) : sx :=
